@@ -1,11 +1,15 @@
 pub mod routing;
 pub mod c01;
+pub mod c03;
+pub mod c13;
 
 use crate::engine::{Ctx, Report};
 
 pub fn run(ctx: &Ctx) -> Option<Report> {
     Some(match ctx.id.as_str() {
         "C01" => c01::run(ctx),
+        "C03" => c03::run(ctx),
+        "C13" => c13::run(ctx),
         _ => return None,
     })
 }
@@ -14,6 +18,8 @@ pub fn run(ctx: &Ctx) -> Option<Report> {
 pub fn replay(id: &str, case: &serde_json::Value) -> Option<Result<(), String>> {
     Some(match id {
         "C01" => c01::replay(case),
+        "C03" => c03::replay(case),
+        "C13" => c13::replay(case),
         _ => return None,
     })
 }
